@@ -323,4 +323,1287 @@ def knoExtraBlanks (d : KDoc) : Bool :=
     | [] => true
     | it :: rest => it.sep == 0 && rest.all fun x => x.sep ≤ 1)
 
+/-! ## stage 7: a missing final line feed
+
+  The same documents, written WITHOUT the line feed of their last line (2.1: a line ends with a line ending or with
+  the end of the file). The document must end with a block (`trail = 0`, at least one block). The prescribed HTML is
+  unchanged. -/
+
+def kfragEB (d : KDoc) : Bool := kfragB d && d.trail == 0 && !d.items.isEmpty
+
+def KFragE (d : KDoc) : Prop := kfragEB d = true
+
+instance (d : KDoc) : Decidable (KFragE d) := by unfold KFragE; infer_instance
+
+/-- the Markdown source without the final line feed -/
+def spellKE (d : KDoc) : Bytes := (spellK d).dropLast
+
+/-- the spec-model document with the choice "no final line ending" -/
+def kembedE (d : KDoc) : Doc := { kembed d with finalNewline := false }
+
+/-! ## stage 8: code spans inside the text lines (documents of paragraphs only)
+
+  A line is a sequence of ATOMS: runs of text as in stages 1–3 (every character in any licensed spelling) and code
+  spans (6.1) in between. A code span is written with ONE backtick on each side; its content is a non-empty run of
+  ASCII letters and digits (so: no backtick inside, no space to strip, nothing to escape). Text and code spans
+  alternate, the line begins and ends with text: its first character is a literal letter, its last one a literal
+  letter or digit (as in `lineOK`). No backtick is ever written literally inside text (`mustEscape`), so the only
+  backtick strings of a line are the delimiters of its code spans, each of length one (a backslash-escaped backtick
+  directly in front of an opening delimiter is consumed by the escape, 2.4, before the delimiter is looked at).
+  Prescribed HTML: `<code>` + the content + `</code>` in place of the code span. -/
+
+inductive RAtom where
+  | txt (cs : List TChar)       -- text, every character in any licensed spelling
+  | code (content : Bytes)      -- a code span
+deriving Repr, Inhabited
+
+abbrev RLine := List RAtom
+
+/-- a paragraph with the number of EXTRA blank lines in front of it (as `FItem`) -/
+structure RItem where
+  gap : Nat := 0
+  lines : List RLine
+deriving Repr, Inhabited
+
+structure RDoc where
+  items : List RItem
+  trail : Nat := 0
+deriving Repr, Inhabited
+
+def RAtom.isTxt : RAtom → Bool
+  | .txt _ => true
+  | .code _ => false
+
+def ratomOK : RAtom → Bool
+  | .txt cs => !cs.isEmpty && cs.all charOK
+  | .code content => !content.isEmpty && content.all isAlnumC
+
+/-- text and code spans alternate -/
+def ralternating : List RAtom → Bool
+  | a :: b :: rest => (a.isTxt != b.isTxt) && ralternating (b :: rest)
+  | _ => true
+
+/-- the first atom is text that begins with a literal letter -/
+def rfirstOK (l : RLine) : Bool :=
+  match l with
+  | .txt (t :: _) :: _ => firstOK t
+  | _ => false
+
+/-- the last atom is text that ends with a literal letter or digit -/
+def rlastOK (l : RLine) : Bool :=
+  match l.getLast? with
+  | some (.txt cs) => (match cs.getLast? with | some z => lastOK z | none => false)
+  | _ => false
+
+def rlineOK (l : RLine) : Bool := ralternating l && rfirstOK l && rlastOK l && l.all ratomOK
+
+def ritemOK (it : RItem) : Bool := !it.lines.isEmpty && it.lines.all rlineOK
+
+def rfragB (d : RDoc) : Bool := d.items.all ritemOK
+
+def RFrag (d : RDoc) : Prop := rfragB d = true
+
+instance (d : RDoc) : Decidable (RFrag d) := by unfold RFrag; infer_instance
+
+def spellRAtom : RAtom → Bytes
+  | .txt cs => escSpell cs
+  | .code content => [96] ++ content ++ [96]
+
+/-- the source bytes of one line, without its line ending -/
+def spellRLine (l : RLine) : Bytes := l.flatMap spellRAtom
+
+def spellRItems (first : Bool) : List RItem → Bytes
+  | [] => []
+  | it :: rest =>
+    blanks (if first then it.gap else it.gap + 1) ++ it.lines.flatMap (fun l => spellRLine l ++ [10]) ++
+      spellRItems false rest
+
+/-- the Markdown source of a stage-8 document -/
+def spellR (d : RDoc) : Bytes := spellRItems true d.items ++ blanks d.trail
+
+def expRAtom : RAtom → Bytes
+  | .txt cs => escHtml (plain cs)
+  | .code content => strBytes "<code>" ++ escHtml content ++ strBytes "</code>"
+
+def expRLine (l : RLine) : Bytes := l.flatMap expRAtom
+
+def expRItem (it : RItem) : Bytes := strBytes "<p>" ++ joinNl (it.lines.map expRLine) ++ strBytes "</p>\n"
+
+/-- the HTML the specification prescribes for a stage-8 document -/
+def expectedR (d : RDoc) : Bytes := d.items.flatMap expRItem
+
+def rembedAtom : RAtom → Inline
+  | .txt cs => .text cs
+  | .code content => .code content 0 false
+
+/-- the atoms of the lines with soft breaks between the lines -/
+def rembedLines : List RLine → List Inline
+  | [] => []
+  | [l] => l.map rembedAtom
+  | l :: rest => l.map rembedAtom ++ .softBreak :: rembedLines rest
+
+def rembed (d : RDoc) : Doc := { blocks := d.items.map fun it => .para {} (rembedLines it.lines) 0 }
+
+def rnoExtraBlanks (d : RDoc) : Bool := d.trail == 0 && d.items.all fun it => it.gap == 0
+
+/-! ## stage 9: hard line breaks written with a backslash (documents of paragraphs only)
+
+  The documents of stages 1–3, where a line that is NOT the last line of its paragraph may be followed by a HARD LINE
+  BREAK (6.7) written as one backslash directly in front of the line ending: `ab\` LF `cd`. The text of every line
+  obeys the line conditions of stages 1–3 (`lineOK`): in particular its last character is a letter or digit written
+  literally, so the backslash of the break follows a byte that is not a backslash (it cannot be read as the second
+  half of a backslash escape, 2.4) and not a space. The last line of a paragraph is never hard (a backslash at the
+  end of a paragraph is a literal backslash, 6.7).
+  Prescribed HTML (6.7 and the reference renderer): `<br />` + newline in place of the newline behind a hard line. -/
+
+/-- a line of text and whether a hard line break (a backslash) follows it -/
+structure BLine where
+  cs : List TChar
+  hard : Bool := false
+deriving Repr, Inhabited
+
+/-- a paragraph with the number of EXTRA blank lines in front of it (as `FItem`) -/
+structure BItem where
+  gap : Nat := 0
+  lines : List BLine
+deriving Repr, Inhabited
+
+structure BDoc where
+  items : List BItem
+  trail : Nat := 0
+deriving Repr, Inhabited
+
+/-- the last line of a paragraph is not hard -/
+def blastSoft (ls : List BLine) : Bool :=
+  match ls.getLast? with
+  | some z => !z.hard
+  | none => false
+
+def bitemOK (it : BItem) : Bool := !it.lines.isEmpty && (it.lines.all fun x => lineOK x.cs) && blastSoft it.lines
+
+def bfragB (d : BDoc) : Bool := d.items.all bitemOK
+
+def BFrag (d : BDoc) : Prop := bfragB d = true
+
+instance (d : BDoc) : Decidable (BFrag d) := by unfold BFrag; infer_instance
+
+/-- the source bytes of one line, without its line ending: the backslash of the break directly behind the text -/
+def spellBLine (x : BLine) : Bytes := if x.hard then escSpell x.cs ++ [92] else escSpell x.cs
+
+def spellBItems (first : Bool) : List BItem → Bytes
+  | [] => []
+  | it :: rest =>
+    blanks (if first then it.gap else it.gap + 1) ++ it.lines.flatMap (fun x => spellBLine x ++ [10]) ++
+      spellBItems false rest
+
+/-- the Markdown source of a stage-9 document -/
+def spellBD (d : BDoc) : Bytes := spellBItems true d.items ++ blanks d.trail
+
+/-- the HTML between `<p>` and `</p>`: `<br />` + newline behind a hard line, a newline behind another line that is
+    not the last one -/
+def expBLines : List BLine → Bytes
+  | [] => []
+  | [x] => escHtml (plain x.cs)
+  | x :: rest => escHtml (plain x.cs) ++ (if x.hard then strBytes "<br />\n" else [10]) ++ expBLines rest
+
+def expBItem (it : BItem) : Bytes := strBytes "<p>" ++ expBLines it.lines ++ strBytes "</p>\n"
+
+/-- the HTML the specification prescribes for a stage-9 document -/
+def expectedBD (d : BDoc) : Bytes := d.items.flatMap expBItem
+
+/-- text lines with a hard break (backslash spelling) or a soft break between them -/
+def bembedLines : List BLine → List Inline
+  | [] => []
+  | [x] => [.text x.cs]
+  | x :: rest => .text x.cs :: (if x.hard then .hardBreak true 0 else .softBreak) :: bembedLines rest
+
+def bembed (d : BDoc) : Doc := { blocks := d.items.map fun it => .para {} (bembedLines it.lines) 0 }
+
+def bnoExtraBlanks (d : BDoc) : Bool := d.trail == 0 && d.items.all fun it => it.gap == 0
+
+/-! ## stage 10: a whole stage-6 document inside ONE block quote
+
+  Every line of a stage-6 document gets the block-quote marker `>` and one space in front (5.1: "a block quote marker
+  consists of 0–3 spaces of indentation, plus the character `>` together with a following space"), the blank lines
+  too (so no line is a lazy continuation line and the quote never ends before the end of the file). The document has
+  at least one block, and its source contains none of the bytes that could start a list item (`-`, `*`, `+`, a digit),
+  a link label (`[`), nor a tab or a carriage return. Prescribed HTML (5.1 and the reference renderer): `<blockquote>`,
+  a line feed, the HTML of the contents, `</blockquote>`, a line feed. -/
+
+/-- `"> "` in front of every line -/
+def quoteLines : Bytes → Bool → Bytes
+  | [], _ => []
+  | c :: cs, atStart => (if atStart then [62, 32] else []) ++ c :: quoteLines cs (c == 10)
+
+/-- bytes that could start a list item, a link label, or are tab / CR: excluded from quoted documents -/
+def qcleanByte (c : UInt8) : Bool :=
+  c != 45 && c != 42 && c != 43 && !(48 ≤ c && c ≤ 57) && c != 91 && c != 9 && c != 13
+
+def qfragB (d : KDoc) : Bool := kfragB d && !d.items.isEmpty && (spellK d).all qcleanByte
+
+def QFrag (d : KDoc) : Prop := qfragB d = true
+
+instance (d : KDoc) : Decidable (QFrag d) := by unfold QFrag; infer_instance
+
+/-- the Markdown source of a stage-10 document -/
+def spellQ (d : KDoc) : Bytes := quoteLines (spellK d) true
+
+/-- the HTML the specification prescribes for a stage-10 document -/
+def expectedQ (d : KDoc) : Bytes := strBytes "<blockquote>\n" ++ expectedK d ++ strBytes "</blockquote>\n"
+
+/-- the spec-model document: one block quote (marker followed by a space) around the stage-6 blocks -/
+def qembed (d : KDoc) : Doc := { blocks := [.quote {} false (kembed d).blocks] }
+
+/-! ## stage 10 without the final line feed
+
+  The quoted documents of stage 10 whose contents are a stage-7 document: `"> "` in front of every line of a stage-6
+  document that ends with a block, and the line feed of the last line left out. Prescribed HTML unchanged. -/
+
+/-- the Markdown source of a stage-10 document without the final line feed -/
+def spellQE (d : KDoc) : Bytes := quoteLines (spellKE d) true
+
+def qfragEB (d : KDoc) : Bool := kfragEB d && (spellK d).all qcleanByte
+
+def QFragE (d : KDoc) : Prop := qfragEB d = true
+
+instance (d : KDoc) : Decidable (QFragE d) := by unfold QFragE; infer_instance
+
+/-! ## stage 11: simple emphasis next to code spans (documents of paragraphs only)
+
+  The lines of stage 8 with two further kinds of atoms between the runs of text: emphasis `*c*` and strong emphasis
+  `**c**` (6.2), always written with `*`; the content `c` is a non-empty run of ASCII letters and digits. A delimiter
+  run that is followed by a letter or digit is left-flanking whatever precedes it, one that is preceded by a letter or
+  digit is right-flanking whatever follows it; for `*` that suffices to open / to close emphasis (6.2 rules 1, 3, 5,
+  7). Text atoms and the other atoms alternate and the line begins and ends with text, so two delimiter runs never
+  touch, and a `*` is never written literally inside text (`mustEscape`): the only delimiter runs of a line are those
+  of its atoms, each closing run matched by the run of the same length directly in front of it (the lengths add up to
+  2 or 4, never to a multiple of 3: 6.2 rules 9, 10).
+  Prescribed HTML: `<em>` + content + `</em>`, `<strong>` + content + `</strong>`. -/
+
+inductive EAtomS where
+  | txt (cs : List TChar)       -- text, every character in any licensed spelling
+  | code (content : Bytes)      -- a code span
+  | em (content : Bytes)        -- `*content*`
+  | strong (content : Bytes)    -- `**content**`
+deriving Repr, Inhabited
+
+abbrev ELine := List EAtomS
+
+/-- a paragraph with the number of EXTRA blank lines in front of it (as `FItem`) -/
+structure EItem where
+  gap : Nat := 0
+  lines : List ELine
+deriving Repr, Inhabited
+
+structure EDoc where
+  items : List EItem
+  trail : Nat := 0
+deriving Repr, Inhabited
+
+def EAtomS.isTxt : EAtomS → Bool
+  | .txt _ => true
+  | _ => false
+
+def eatomOKS : EAtomS → Bool
+  | .txt cs => !cs.isEmpty && cs.all charOK
+  | .code content => !content.isEmpty && content.all isAlnumC
+  | .em content => !content.isEmpty && content.all isAlnumC
+  | .strong content => !content.isEmpty && content.all isAlnumC
+
+/-- text atoms and the other atoms alternate -/
+def ealternatingS : List EAtomS → Bool
+  | a :: b :: rest => (a.isTxt != b.isTxt) && ealternatingS (b :: rest)
+  | _ => true
+
+/-- the first atom is text that begins with a literal letter -/
+def efirstOKS (l : ELine) : Bool :=
+  match l with
+  | .txt (t :: _) :: _ => firstOK t
+  | _ => false
+
+/-- the last atom is text that ends with a literal letter or digit -/
+def elastOKS (l : ELine) : Bool :=
+  match l.getLast? with
+  | some (.txt cs) => (match cs.getLast? with | some z => lastOK z | none => false)
+  | _ => false
+
+def elineOKS (l : ELine) : Bool := ealternatingS l && efirstOKS l && elastOKS l && l.all eatomOKS
+
+def eitemOKS (it : EItem) : Bool := !it.lines.isEmpty && it.lines.all elineOKS
+
+def efragB (d : EDoc) : Bool := d.items.all eitemOKS
+
+def EFrag (d : EDoc) : Prop := efragB d = true
+
+instance (d : EDoc) : Decidable (EFrag d) := by unfold EFrag; infer_instance
+
+def spellEAtom : EAtomS → Bytes
+  | .txt cs => escSpell cs
+  | .code content => [96] ++ content ++ [96]
+  | .em content => [42] ++ content ++ [42]
+  | .strong content => [42, 42] ++ content ++ [42, 42]
+
+/-- the source bytes of one line, without its line ending -/
+def spellELine (l : ELine) : Bytes := l.flatMap spellEAtom
+
+def spellEItems (first : Bool) : List EItem → Bytes
+  | [] => []
+  | it :: rest =>
+    blanks (if first then it.gap else it.gap + 1) ++ it.lines.flatMap (fun l => spellELine l ++ [10]) ++
+      spellEItems false rest
+
+/-- the Markdown source of a stage-11 document -/
+def spellE (d : EDoc) : Bytes := spellEItems true d.items ++ blanks d.trail
+
+def expEAtom : EAtomS → Bytes
+  | .txt cs => escHtml (plain cs)
+  | .code content => strBytes "<code>" ++ escHtml content ++ strBytes "</code>"
+  | .em content => strBytes "<em>" ++ escHtml content ++ strBytes "</em>"
+  | .strong content => strBytes "<strong>" ++ escHtml content ++ strBytes "</strong>"
+
+def expELine (l : ELine) : Bytes := l.flatMap expEAtom
+
+def expEItem (it : EItem) : Bytes := strBytes "<p>" ++ joinNl (it.lines.map expELine) ++ strBytes "</p>\n"
+
+/-- the HTML the specification prescribes for a stage-11 document -/
+def expectedE (d : EDoc) : Bytes := d.items.flatMap expEItem
+
+/-- bytes as characters written literally -/
+def elits (b : Bytes) : List TChar := b.map fun c => ⟨c, .lit⟩
+
+def eembedAtom : EAtomS → Inline
+  | .txt cs => .text cs
+  | .code content => .code content 0 false
+  | .em content => .emph false [.text (elits content)]
+  | .strong content => .strong false [.text (elits content)]
+
+/-- the atoms of the lines with soft breaks between the lines -/
+def eembedLines : List ELine → List Inline
+  | [] => []
+  | [l] => l.map eembedAtom
+  | l :: rest => l.map eembedAtom ++ .softBreak :: eembedLines rest
+
+def eembed (d : EDoc) : Doc := { blocks := d.items.map fun it => .para {} (eembedLines it.lines) 0 }
+
+def enoExtraBlanks (d : EDoc) : Bool := d.trail == 0 && d.items.all fun it => it.gap == 0
+
+/-! ## stage 13: the union — the blocks of stages 6 / 7 with the lines of stages 9 and 11
+
+  The block structure of stage 6 (paragraphs, ATX headings, thematic breaks, fenced code blocks; `sep` blank lines in
+  front of a block, none where the specification lets a block follow directly), where every paragraph line and every
+  heading text is a line of stage 11 (text, code spans, `*x*`, `**x**`; it begins with a literal letter and ends with a
+  literal letter or digit — so a heading text has no closing sequence of `#` and no trailing space), and a paragraph
+  line that is not the last one of its paragraph may be followed by a backslash hard line break as in stage 9 (the
+  byte in front of the backslash is a letter or digit written literally). The union also has the INDENTED CODE BLOCKS
+  of stage 12 (`UBlockS.icode`, with the rules of stage 12: not directly behind a paragraph; never behind another
+  indented code block, whatever the separation). Written with the final line feed (`spellU`, `UFrag`) or without it
+  (`spellUE`, `UFragE`: the document ends with a block that is not an indented code block — that case is stage 12's
+  `IFragE`). -/
+
+/-- a paragraph line and whether a hard line break (a backslash) follows it -/
+structure ULineS where
+  atoms : ELine
+  hard : Bool := false
+deriving Repr, Inhabited
+
+inductive UBlockS where
+  | para (lines : List ULineS)
+  | heading (level : Nat) (text : ELine)
+  | thematic (c n : Nat)                 -- c % 3: 0 `*`, 1 `-`, 2 `_`; `n + 3` characters
+  | fcode (tilde : Bool) (n : Nat) (info : Bytes) (lines : List Bytes)
+  | icode (lines : List Bytes)           -- an indented code block (stage 12): four spaces in front of every line
+deriving Repr, Inhabited
+
+/-- a block with the number of blank lines in front of it (as `KItem`) -/
+structure UItem where
+  sep : Nat := 0
+  block : UBlockS
+deriving Repr, Inhabited
+
+structure UDocS where
+  items : List UItem
+  trail : Nat := 0
+deriving Repr, Inhabited
+
+/-- the last line of a paragraph is not hard -/
+def ulastSoftS (ls : List ULineS) : Bool :=
+  match ls.getLast? with
+  | some z => !z.hard
+  | none => false
+
+/-- a line of an indented code block (stage 12): printable, not empty, not starting with a space -/
+def icLineOK (l : Bytes) : Bool := l.all printable && (match l.head? with | none => false | some c => c != 32)
+
+def UBlockS.isIc : UBlockS → Bool
+  | .icode _ => true
+  | _ => false
+
+def ublockOKS : UBlockS → Bool
+  | .icode lines => !lines.isEmpty && lines.all icLineOK
+  | .para lines => !lines.isEmpty && (lines.all fun x => elineOKS x.atoms) && ulastSoftS lines
+  | .heading level text => decide (1 ≤ level) && decide (level ≤ 6) && elineOKS text
+  | .thematic _ _ => true
+  | .fcode tilde _ info lines => info.all isAlnumC && lines.all (codeLineOK (fenceChar tilde))
+
+/-- may `b` follow `a` without a blank line? (as `kabutOK` / `iabutOK`: an indented code block cannot interrupt a
+    paragraph) -/
+def uabutOK (a b : UBlockS) : Bool :=
+  match a with
+  | .para _ =>
+    (match b with
+     | .heading _ _ => true
+     | .thematic c _ => c % 3 != 1
+     | .fcode _ _ _ _ => true
+     | .para _ => false
+     | .icode _ => false)
+  | _ => true
+
+/-- as `isepsOK`: an indented code block never follows an indented code block, whatever the separation (two indented
+    chunks separated only by blank lines are ONE code block) -/
+def usepsOK : Option UBlockS → List UItem → Bool
+  | _, [] => true
+  | none, it :: rest => usepsOK (some it.block) rest
+  | some a, it :: rest =>
+    (it.sep != 0 || uabutOK a it.block) && !(a.isIc && it.block.isIc) && usepsOK (some it.block) rest
+
+def ufragB (d : UDocS) : Bool := (d.items.all fun it => ublockOKS it.block) && usepsOK none d.items
+
+def UFrag (d : UDocS) : Prop := ufragB d = true
+
+instance (d : UDocS) : Decidable (UFrag d) := by unfold UFrag; infer_instance
+
+/-- the last block is not an indented code block -/
+def ulastNotIc (d : UDocS) : Bool :=
+  match d.items.getLast? with
+  | some it => !it.block.isIc
+  | none => true
+
+def ufragEB (d : UDocS) : Bool := ufragB d && d.trail == 0 && !d.items.isEmpty && ulastNotIc d
+
+def UFragE (d : UDocS) : Prop := ufragEB d = true
+
+instance (d : UDocS) : Decidable (UFragE d) := by unfold UFragE; infer_instance
+
+/-- the source bytes of one paragraph line, without its line ending: the backslash of the break directly behind it -/
+def spellULine (x : ULineS) : Bytes := if x.hard then spellELine x.atoms ++ [92] else spellELine x.atoms
+
+def spellUBlock : UBlockS → Bytes
+  | .para lines => lines.flatMap fun x => spellULine x ++ [10]
+  | .heading level text => List.replicate level 35 ++ [32] ++ spellELine text ++ [10]
+  | .thematic c n => thematicLine c n false ++ [10]
+  | .fcode tilde n info lines =>
+    List.replicate (n + 3) (fenceChar tilde) ++ info ++ [10] ++ lines.flatMap (· ++ [10]) ++
+      List.replicate (n + 3) (fenceChar tilde) ++ [10]
+  | .icode lines => lines.flatMap fun l => [32, 32, 32, 32] ++ l ++ [10]
+
+/-- the Markdown source of a stage-13 document -/
+def spellU (d : UDocS) : Bytes := (d.items.flatMap fun it => blanks it.sep ++ spellUBlock it.block) ++ blanks d.trail
+
+/-- the Markdown source without the final line feed -/
+def spellUE (d : UDocS) : Bytes := (spellU d).dropLast
+
+/-- the HTML between `<p>` and `</p>`: `<br />` + newline behind a hard line, a newline behind another line that is
+    not the last one -/
+def expULines : List ULineS → Bytes
+  | [] => []
+  | [x] => expELine x.atoms
+  | x :: rest => expELine x.atoms ++ (if x.hard then strBytes "<br />\n" else [10]) ++ expULines rest
+
+def expUBlock : UBlockS → Bytes
+  | .para lines => strBytes "<p>" ++ expULines lines ++ strBytes "</p>\n"
+  | .heading level text =>
+    strBytes "<h" ++ [UInt8.ofNat (48 + level)] ++ [62] ++ expELine text ++ strBytes "</h" ++
+      [UInt8.ofNat (48 + level)] ++ strBytes ">\n"
+  | .thematic _ _ => strBytes "<hr />\n"
+  | .fcode _ _ info lines =>
+    strBytes "<pre><code" ++ (if info.isEmpty then [] else strBytes " class=\"language-" ++ info ++ [34]) ++ [62] ++
+      lines.flatMap (fun l => escHtml l ++ [10]) ++ strBytes "</code></pre>\n"
+  | .icode lines => strBytes "<pre><code>" ++ lines.flatMap (fun l => escHtml l ++ [10]) ++ strBytes "</code></pre>\n"
+
+/-- the HTML the specification prescribes for a stage-13 document -/
+def expectedU (d : UDocS) : Bytes := d.items.flatMap fun it => expUBlock it.block
+
+/-- the atoms of the lines with a hard break (backslash spelling) or a soft break between the lines -/
+def uembedLines : List ULineS → List Inline
+  | [] => []
+  | [x] => x.atoms.map eembedAtom
+  | x :: rest => x.atoms.map eembedAtom ++ (if x.hard then .hardBreak true 0 else .softBreak) :: uembedLines rest
+
+/-- the block in the spec model, with the choice "no blank line in front" -/
+def uembedBlock (abut : Bool) : UBlockS → Block
+  | .para lines => .para { abut := abut } (uembedLines lines) 0
+  | .heading level text => .heading { abut := abut } level false 0 0 (text.map eembedAtom)
+  | .thematic c n => .thematic { abut := abut } c n false
+  | .fcode tilde n info lines => .fcode { abut := abut } tilde n 0 0 info 0 lines
+  | .icode lines => .icode lines
+
+def uembed (d : UDocS) : Doc := { blocks := d.items.map fun it => uembedBlock (it.sep == 0) it.block }
+
+/-- the spec-model document with the choice "no final line ending" -/
+def uembedE (d : UDocS) : Doc := { uembed d with finalNewline := false }
+
+/-- the documents whose source the spec model spells byte for byte (as `inoExtraBlanks`): nothing in front, nothing
+    behind, at most one blank line between two blocks and exactly one in front of and behind every indented code block -/
+def unoExtraBlanksFrom : Option UBlockS → List UItem → Bool
+  | _, [] => true
+  | none, it :: rest => it.sep == 0 && unoExtraBlanksFrom (some it.block) rest
+  | some a, it :: rest =>
+    it.sep ≤ 1 && (!(a.isIc || it.block.isIc) || it.sep == 1) && unoExtraBlanksFrom (some it.block) rest
+
+def unoExtraBlanks (d : UDocS) : Bool := d.trail == 0 && unoExtraBlanksFrom none d.items
+
+/-! ## stage 14: a stage-6 document inside `k + 1` nested block quotes
+
+  The stage-10 construction applied `k + 1` times: every line of a stage-6 document (the blank lines too) gets
+  `k + 1` block-quote markers, each followed by one space, in front (`> > > text`; 5.1: a block quote's contents are
+  again a sequence of blocks, so a line of a quote inside a quote begins with one marker per quote). The fragment
+  predicate is the one of stage 10 (`QFrag`), for every `k`. Prescribed HTML: `k + 1` nested `<blockquote>`, line
+  feed, …, `</blockquote>`, line feed, around the HTML of the contents. -/
+
+/-- `"> "` in front of every line, `k` times -/
+def quoteLinesN : Nat → Bytes → Bytes
+  | 0, s => s
+  | k + 1, s => quoteLines (quoteLinesN k s) true
+
+/-- the Markdown source of a stage-14 document: `k + 1` quotes -/
+def spellNQ (k : Nat) (d : KDoc) : Bytes := quoteLinesN (k + 1) (spellK d)
+
+/-- `k` nested `<blockquote>` elements around `h` -/
+def wrapQ : Nat → Bytes → Bytes
+  | 0, h => h
+  | k + 1, h => strBytes "<blockquote>\n" ++ wrapQ k h ++ strBytes "</blockquote>\n"
+
+/-- the HTML the specification prescribes for a stage-14 document -/
+def expectedNQ (k : Nat) (d : KDoc) : Bytes := wrapQ (k + 1) (expectedK d)
+
+/-- `k` nested block quotes (marker followed by a space) around the blocks -/
+def nestQuote : Nat → List Block → List Block
+  | 0, bs => bs
+  | k + 1, bs => [.quote {} false (nestQuote k bs)]
+
+/-- the spec-model document: `k + 1` nested block quotes around the stage-6 blocks -/
+def nqembed (k : Nat) (d : KDoc) : Doc := { blocks := nestQuote (k + 1) (kembed d).blocks }
+
+/-! ## stage 15: a stage-13 (union) document inside ONE block quote
+
+  The stage-10 construction applied to the union fragment of stage 13: every line of a stage-13 document (the blank
+  lines too) gets the block-quote marker `>` and one space in front. The document has at least one block and its
+  source contains none of the bytes `qcleanByte` excludes: `-`, `+`, a digit, `[`, tab, carriage return — and `*`
+  (byte 42): the class of the block-quote simulation excludes every byte that could start a list item. So the emphasis
+  atoms `*x*` / `**x**` of stage 11 CANNOT occur in a quoted union document (a member has only text and code-span
+  atoms; an escaped `\*` is excluded too, a `*` written as `&ast;` is not), and a thematic break is written with `_`.
+  What remains of the union: code spans in paragraph lines and in heading texts, backslash hard line breaks behind
+  paragraph lines (the backslash is then the last byte of a quoted line), all four block kinds, blocks directly behind
+  each other. Prescribed HTML (5.1): `<blockquote>`, a line feed, the HTML of the contents, `</blockquote>`, a line
+  feed. A quoted union document has NO indented code block (the block-quote simulation does not cover them). -/
+
+def uqfragB (d : UDocS) : Bool :=
+  ufragB d && !d.items.isEmpty && (spellU d).all qcleanByte && d.items.all fun it => !it.block.isIc
+
+def UQFrag (d : UDocS) : Prop := uqfragB d = true
+
+instance (d : UDocS) : Decidable (UQFrag d) := by unfold UQFrag; infer_instance
+
+/-- the Markdown source of a stage-15 document -/
+def spellUQ (d : UDocS) : Bytes := quoteLines (spellU d) true
+
+/-- the HTML the specification prescribes for a stage-15 document -/
+def expectedUQ (d : UDocS) : Bytes := strBytes "<blockquote>\n" ++ expectedU d ++ strBytes "</blockquote>\n"
+
+/-- the spec-model document: one block quote (marker followed by a space) around the stage-13 blocks -/
+def uqembed (d : UDocS) : Doc := { blocks := [.quote {} false (uembed d).blocks] }
+
+/-! ## stage 16: inline links inside the text lines (documents of paragraphs only)
+
+  A line is a sequence of ATOMS: runs of text as in stages 1–3 (every character in any licensed spelling) and INLINE
+  LINKS (6.3) in between, written `[text](dest)`: the link text is a non-empty run of ASCII letters and digits, the
+  destination a non-empty run of ASCII letters, digits and `/`, written without angle brackets; there is no title and no
+  white space inside the parentheses. Text and links alternate, the line begins and ends with text: its first character
+  is a literal letter, its last one a literal letter or digit (as in `lineOK`). A bracket is never written literally
+  inside text (`mustEscape`: `\[`, `\]` or a reference), so the only brackets that can open or close a link text are
+  those of the link atoms; a link text contains no bracket, so links do not nest. The byte `!` directly in front of `[`
+  would make the link an image (6.4): `charOK` already excludes the `!` that is written literally, and every other
+  spelling of `!` (`\!`, `&excl;`, `&#33;`, …) is text whose `!` cannot begin an image (2.4: a backslash-escaped
+  character loses its meaning; 2.5: a character reference cannot stand for a structural character), so no further
+  condition is needed. There are no link reference definitions, so `[text]` alone is never a link.
+  Prescribed HTML: `<a href="` + dest + `">` + text + `</a>` in place of the link (destinations of letters, digits and
+  `/` need neither percent-encoding nor HTML escaping). -/
+
+inductive LAtomS where
+  | txt (cs : List TChar)       -- text, every character in any licensed spelling
+  | link (text dest : Bytes)    -- an inline link `[text](dest)`
+deriving Repr, Inhabited
+
+abbrev LLine := List LAtomS
+
+/-- a paragraph with the number of EXTRA blank lines in front of it (as `FItem`) -/
+structure LItem where
+  gap : Nat := 0
+  lines : List LLine
+deriving Repr, Inhabited
+
+structure LDoc where
+  items : List LItem
+  trail : Nat := 0
+deriving Repr, Inhabited
+
+def LAtomS.isTxt : LAtomS → Bool
+  | .txt _ => true
+  | .link _ _ => false
+
+/-- a byte of a destination: a letter, a digit or `/` -/
+def isDestC (c : UInt8) : Bool := isAlnumC c || c == 47
+
+def latomOKS : LAtomS → Bool
+  | .txt cs => !cs.isEmpty && cs.all charOK
+  | .link text dest => !text.isEmpty && text.all isAlnumC && !dest.isEmpty && dest.all isDestC
+
+/-- text atoms and links alternate -/
+def lalternatingS : List LAtomS → Bool
+  | a :: b :: rest => (a.isTxt != b.isTxt) && lalternatingS (b :: rest)
+  | _ => true
+
+/-- the first atom is text that begins with a literal letter -/
+def lfirstOKS (l : LLine) : Bool :=
+  match l with
+  | .txt (t :: _) :: _ => firstOK t
+  | _ => false
+
+/-- the last atom is text that ends with a literal letter or digit -/
+def llastOKS (l : LLine) : Bool :=
+  match l.getLast? with
+  | some (.txt cs) => (match cs.getLast? with | some z => lastOK z | none => false)
+  | _ => false
+
+def llineOKS (l : LLine) : Bool := lalternatingS l && lfirstOKS l && llastOKS l && l.all latomOKS
+
+def litemOKS (it : LItem) : Bool := !it.lines.isEmpty && it.lines.all llineOKS
+
+def lfragB (d : LDoc) : Bool := d.items.all litemOKS
+
+def LFrag (d : LDoc) : Prop := lfragB d = true
+
+instance (d : LDoc) : Decidable (LFrag d) := by unfold LFrag; infer_instance
+
+def spellLAtom : LAtomS → Bytes
+  | .txt cs => escSpell cs
+  | .link text dest => [91] ++ text ++ [93, 40] ++ dest ++ [41]
+
+/-- the source bytes of one line, without its line ending -/
+def spellLLine (l : LLine) : Bytes := l.flatMap spellLAtom
+
+def spellLItems (first : Bool) : List LItem → Bytes
+  | [] => []
+  | it :: rest =>
+    blanks (if first then it.gap else it.gap + 1) ++ it.lines.flatMap (fun l => spellLLine l ++ [10]) ++
+      spellLItems false rest
+
+/-- the Markdown source of a stage-16 document -/
+def spellL (d : LDoc) : Bytes := spellLItems true d.items ++ blanks d.trail
+
+def expLAtom : LAtomS → Bytes
+  | .txt cs => escHtml (plain cs)
+  | .link text dest => strBytes "<a href=\"" ++ dest ++ strBytes "\">" ++ text ++ strBytes "</a>"
+
+def expLLine (l : LLine) : Bytes := l.flatMap expLAtom
+
+def expLItem (it : LItem) : Bytes := strBytes "<p>" ++ joinNl (it.lines.map expLLine) ++ strBytes "</p>\n"
+
+/-- the HTML the specification prescribes for a stage-16 document -/
+def expectedL (d : LDoc) : Bytes := d.items.flatMap expLItem
+
+/-- a link of GM.Spec.CommonMark: inline form (`LinkCh` default: no angle brackets, no inner space), no title, the label
+    unused; its text as one text node of literally written characters -/
+def lembedAtom : LAtomS → Inline
+  | .txt cs => .text cs
+  | .link text dest => .link [.text (elits text)] dest none [] {}
+
+/-- the atoms of the lines with soft breaks between the lines -/
+def lembedLines : List LLine → List Inline
+  | [] => []
+  | [l] => l.map lembedAtom
+  | l :: rest => l.map lembedAtom ++ .softBreak :: lembedLines rest
+
+def lembed (d : LDoc) : Doc := { blocks := d.items.map fun it => .para {} (lembedLines it.lines) 0 }
+
+def lnoExtraBlanks (d : LDoc) : Bool := d.trail == 0 && d.items.all fun it => it.gap == 0
+
+/-! ## stage 17: images inside the text lines (documents of paragraphs only)
+
+  The lines of stage 16 with IMAGES (6.4) in place of the links: `![alt](dest)`, the image description a non-empty run
+  of ASCII letters and digits, the destination a non-empty run of ASCII letters, digits and `/`, no title. Text and
+  images alternate, the line begins and ends with text (first character a literal letter, last one a literal letter or
+  digit). The `!` of an image is the only `!` written as a bare byte (`charOK` excludes the literal spelling inside text);
+  a text atom in front of an image may end in `\!` or `&excl;`: that is the text `!` followed by the image. A backslash
+  in front of the image's `!` is always the second byte of `\\` (2.4), never an escape of the `!`.
+  Prescribed HTML: `<img src="` + dest + `" alt="` + alt + `" />`. -/
+
+inductive ImgAtomS where
+  | txt (cs : List TChar)       -- text, every character in any licensed spelling
+  | img (alt dest : Bytes)      -- an image `![alt](dest)`
+deriving Repr, Inhabited
+
+abbrev ImgLine := List ImgAtomS
+
+/-- a paragraph with the number of EXTRA blank lines in front of it (as `FItem`) -/
+structure ImgItem where
+  gap : Nat := 0
+  lines : List ImgLine
+deriving Repr, Inhabited
+
+structure ImgDoc where
+  items : List ImgItem
+  trail : Nat := 0
+deriving Repr, Inhabited
+
+def ImgAtomS.isTxt : ImgAtomS → Bool
+  | .txt _ => true
+  | .img _ _ => false
+
+def imgatomOKS : ImgAtomS → Bool
+  | .txt cs => !cs.isEmpty && cs.all charOK
+  | .img alt dest => !alt.isEmpty && alt.all isAlnumC && !dest.isEmpty && dest.all isDestC
+
+/-- text atoms and images alternate -/
+def imgalternatingS : List ImgAtomS → Bool
+  | a :: b :: rest => (a.isTxt != b.isTxt) && imgalternatingS (b :: rest)
+  | _ => true
+
+/-- the first atom is text that begins with a literal letter -/
+def imgfirstOKS (l : ImgLine) : Bool :=
+  match l with
+  | .txt (t :: _) :: _ => firstOK t
+  | _ => false
+
+/-- the last atom is text that ends with a literal letter or digit -/
+def imglastOKS (l : ImgLine) : Bool :=
+  match l.getLast? with
+  | some (.txt cs) => (match cs.getLast? with | some z => lastOK z | none => false)
+  | _ => false
+
+def imglineOKS (l : ImgLine) : Bool := imgalternatingS l && imgfirstOKS l && imglastOKS l && l.all imgatomOKS
+
+def imgitemOKS (it : ImgItem) : Bool := !it.lines.isEmpty && it.lines.all imglineOKS
+
+def imgfragB (d : ImgDoc) : Bool := d.items.all imgitemOKS
+
+def ImgFrag (d : ImgDoc) : Prop := imgfragB d = true
+
+instance (d : ImgDoc) : Decidable (ImgFrag d) := by unfold ImgFrag; infer_instance
+
+def spellImgAtom : ImgAtomS → Bytes
+  | .txt cs => escSpell cs
+  | .img alt dest => [33, 91] ++ alt ++ [93, 40] ++ dest ++ [41]
+
+/-- the source bytes of one line, without its line ending -/
+def spellImgLine (l : ImgLine) : Bytes := l.flatMap spellImgAtom
+
+def spellImgItems (first : Bool) : List ImgItem → Bytes
+  | [] => []
+  | it :: rest =>
+    blanks (if first then it.gap else it.gap + 1) ++ it.lines.flatMap (fun l => spellImgLine l ++ [10]) ++
+      spellImgItems false rest
+
+/-- the Markdown source of a stage-17 document -/
+def spellImg (d : ImgDoc) : Bytes := spellImgItems true d.items ++ blanks d.trail
+
+def expImgAtom : ImgAtomS → Bytes
+  | .txt cs => escHtml (plain cs)
+  | .img alt dest => strBytes "<img src=\"" ++ dest ++ strBytes "\" alt=\"" ++ alt ++ strBytes "\" />"
+
+def expImgLine (l : ImgLine) : Bytes := l.flatMap expImgAtom
+
+def expImgItem (it : ImgItem) : Bytes := strBytes "<p>" ++ joinNl (it.lines.map expImgLine) ++ strBytes "</p>\n"
+
+/-- the HTML the specification prescribes for a stage-17 document -/
+def expectedImg (d : ImgDoc) : Bytes := d.items.flatMap expImgItem
+
+/-- an image of GM.Spec.CommonMark: inline form, no title, the label unused; its description as one text node of
+    literally written characters -/
+def imgembedAtom : ImgAtomS → Inline
+  | .txt cs => .text cs
+  | .img alt dest => .image [.text (elits alt)] dest none [] {}
+
+/-- the atoms of the lines with soft breaks between the lines -/
+def imgembedLines : List ImgLine → List Inline
+  | [] => []
+  | [l] => l.map imgembedAtom
+  | l :: rest => l.map imgembedAtom ++ .softBreak :: imgembedLines rest
+
+def imgembed (d : ImgDoc) : Doc := { blocks := d.items.map fun it => .para {} (imgembedLines it.lines) 0 }
+
+def imgnoExtraBlanks (d : ImgDoc) : Bool := d.trail == 0 && d.items.all fun it => it.gap == 0
+
+/-! ## stage 18: URI autolinks inside the text lines (documents of paragraphs only)
+
+  The lines of stage 16 with AUTOLINKS (6.5) in place of the links: `<scheme:rest>`, the scheme 2–32 ASCII letters (6.5:
+  a letter followed by 1–31 letters, digits, `+`, `.`, `-`), the rest a non-empty run of ASCII letters, digits, `/` and
+  `.` (no space, `<` or `>`). Text and autolinks alternate, the line begins and ends with text (first character a
+  literal letter, last one a literal letter or digit). A `<` is never written literally inside text (`mustEscape`), so
+  the only `<` that can open an autolink or raw HTML are those of the autolink atoms; `<scheme:rest>` is no HTML tag
+  (6.6: a tag name is followed by white space, `/` or `>`, not by `:`).
+  Prescribed HTML: `<a href="` + scheme:rest + `">` + scheme:rest + `</a>` (nothing to percent-encode or to escape). -/
+
+inductive AAtomS where
+  | txt (cs : List TChar)           -- text, every character in any licensed spelling
+  | auto (scheme rest : Bytes)      -- an autolink `<scheme:rest>`
+deriving Repr, Inhabited
+
+abbrev ALine := List AAtomS
+
+/-- a paragraph with the number of EXTRA blank lines in front of it (as `FItem`) -/
+structure AItem where
+  gap : Nat := 0
+  lines : List ALine
+deriving Repr, Inhabited
+
+structure ADoc where
+  items : List AItem
+  trail : Nat := 0
+deriving Repr, Inhabited
+
+def AAtomS.isTxt : AAtomS → Bool
+  | .txt _ => true
+  | .auto _ _ => false
+
+/-- a byte behind the colon of an autolink: a letter, a digit, `/` or `.` -/
+def isAutoC (c : UInt8) : Bool := isAlnumC c || c == 47 || c == 46
+
+/-- the absolute URI of an autolink -/
+def autoUri (scheme rest : Bytes) : Bytes := scheme ++ [58] ++ rest
+
+def aatomOKS : AAtomS → Bool
+  | .txt cs => !cs.isEmpty && cs.all charOK
+  | .auto scheme rest =>
+    decide (2 ≤ scheme.length) && decide (scheme.length ≤ 32) && scheme.all isLetter && !rest.isEmpty && rest.all isAutoC
+
+/-- text atoms and autolinks alternate -/
+def aalternatingS : List AAtomS → Bool
+  | a :: b :: rest => (a.isTxt != b.isTxt) && aalternatingS (b :: rest)
+  | _ => true
+
+/-- the first atom is text that begins with a literal letter -/
+def afirstOKS (l : ALine) : Bool :=
+  match l with
+  | .txt (t :: _) :: _ => firstOK t
+  | _ => false
+
+/-- the last atom is text that ends with a literal letter or digit -/
+def alastOKS (l : ALine) : Bool :=
+  match l.getLast? with
+  | some (.txt cs) => (match cs.getLast? with | some z => lastOK z | none => false)
+  | _ => false
+
+def alineOKS (l : ALine) : Bool := aalternatingS l && afirstOKS l && alastOKS l && l.all aatomOKS
+
+def aitemOKS (it : AItem) : Bool := !it.lines.isEmpty && it.lines.all alineOKS
+
+def afragB (d : ADoc) : Bool := d.items.all aitemOKS
+
+def AFrag (d : ADoc) : Prop := afragB d = true
+
+instance (d : ADoc) : Decidable (AFrag d) := by unfold AFrag; infer_instance
+
+def spellAAtom : AAtomS → Bytes
+  | .txt cs => escSpell cs
+  | .auto scheme rest => [60] ++ autoUri scheme rest ++ [62]
+
+/-- the source bytes of one line, without its line ending -/
+def spellALine (l : ALine) : Bytes := l.flatMap spellAAtom
+
+def spellAItems (first : Bool) : List AItem → Bytes
+  | [] => []
+  | it :: rest =>
+    blanks (if first then it.gap else it.gap + 1) ++ it.lines.flatMap (fun l => spellALine l ++ [10]) ++
+      spellAItems false rest
+
+/-- the Markdown source of a stage-18 document -/
+def spellAD (d : ADoc) : Bytes := spellAItems true d.items ++ blanks d.trail
+
+def expAAtom : AAtomS → Bytes
+  | .txt cs => escHtml (plain cs)
+  | .auto scheme rest =>
+    strBytes "<a href=\"" ++ autoUri scheme rest ++ strBytes "\">" ++ autoUri scheme rest ++ strBytes "</a>"
+
+def expALine (l : ALine) : Bytes := l.flatMap expAAtom
+
+def expAItem (it : AItem) : Bytes := strBytes "<p>" ++ joinNl (it.lines.map expALine) ++ strBytes "</p>\n"
+
+/-- the HTML the specification prescribes for a stage-18 document -/
+def expectedAD (d : ADoc) : Bytes := d.items.flatMap expAItem
+
+/-- a URI autolink of GM.Spec.CommonMark (`email := false`) -/
+def aembedAtom : AAtomS → Inline
+  | .txt cs => .text cs
+  | .auto scheme rest => .autolink (autoUri scheme rest) false
+
+/-- the atoms of the lines with soft breaks between the lines -/
+def aembedLines : List ALine → List Inline
+  | [] => []
+  | [l] => l.map aembedAtom
+  | l :: rest => l.map aembedAtom ++ .softBreak :: aembedLines rest
+
+def aembed (d : ADoc) : Doc := { blocks := d.items.map fun it => .para {} (aembedLines it.lines) 0 }
+
+def anoExtraBlanks (d : ADoc) : Bool := d.trail == 0 && d.items.all fun it => it.gap == 0
+
+/-! ## stage 12: indented code blocks
+
+  An indented code block (4.4) here: one or more lines, each indented by exactly four spaces and followed by a run of
+  printable ASCII characters that is not empty and does not start with a space — so no line of the block is blank and
+  the content of every line is what follows the four spaces. "An indented code block cannot interrupt a paragraph"
+  (4.4): directly under a paragraph such a line would be a continuation line (4.8), so behind a paragraph a blank line
+  is required; any block may follow the last line of an indented code block directly ("The code block continues until
+  it reaches a line that is not indented or blank"); blank lines behind it are not part of its content ("Blank lines
+  preceding or following an indented code block are not included in it"). Two indented chunks separated only by blank
+  lines are ONE code block in CommonMark, so an indented code block never follows an indented code block in this
+  fragment. Prescribed HTML: `<pre><code>`, the lines HTML-escaped, each with its line feed, `</code></pre>`. -/
+
+inductive IBlock where
+  | h (b : HBlock)
+  | icode (lines : List Bytes)
+deriving Repr, Inhabited
+
+structure IItem where
+  sep : Nat := 0
+  block : IBlock
+deriving Repr, Inhabited
+
+structure IDoc where
+  items : List IItem
+  trail : Nat := 0
+deriving Repr, Inhabited
+
+def iblockOK : IBlock → Bool
+  | .h b => hblockOK b
+  | .icode lines => !lines.isEmpty && lines.all icLineOK
+
+def IBlock.isIc : IBlock → Bool
+  | .icode _ => true
+  | _ => false
+
+def IBlock.isPara : IBlock → Bool
+  | .h (.base (.para _)) => true
+  | _ => false
+
+/-- may `b` follow `a` without a blank line? -/
+def iabutOK (a b : IBlock) : Bool :=
+  match a, b with
+  | .h a, .h b => kabutOK a b
+  | a, .icode _ => !a.isPara
+  | .icode _, .h _ => true
+
+def isepsOK : Option IBlock → List IItem → Bool
+  | _, [] => true
+  | none, it :: rest => isepsOK (some it.block) rest
+  | some a, it :: rest =>
+    (it.sep != 0 || iabutOK a it.block) && !(a.isIc && it.block.isIc) && isepsOK (some it.block) rest
+
+def ifragB (d : IDoc) : Bool := (d.items.all fun it => iblockOK it.block) && isepsOK none d.items
+
+def IFrag (d : IDoc) : Prop := ifragB d = true
+
+instance (d : IDoc) : Decidable (IFrag d) := by unfold IFrag; infer_instance
+
+def spellIBlock : IBlock → Bytes
+  | .h b => spellHBlock b
+  | .icode lines => lines.flatMap fun l => [32, 32, 32, 32] ++ l ++ [10]
+
+/-- the Markdown source of a stage-12 document -/
+def spellIc (d : IDoc) : Bytes := (d.items.flatMap fun it => blanks it.sep ++ spellIBlock it.block) ++ blanks d.trail
+
+def expIBlock : IBlock → Bytes
+  | .h b => expHBlock b
+  | .icode lines => strBytes "<pre><code>" ++ lines.flatMap (fun l => escHtml l ++ [10]) ++ strBytes "</code></pre>\n"
+
+/-- the HTML the specification prescribes for a stage-12 document -/
+def expectedI (d : IDoc) : Bytes := d.items.flatMap fun it => expIBlock it.block
+
+/-- the block in the spec model (an indented code block has no choices there: the spec model always writes a blank
+    line in front of it and behind it) -/
+def iembedBlock (abut : Bool) : IBlock → Block
+  | .h b => kembedBlock abut b
+  | .icode lines => .icode lines
+
+def iembed (d : IDoc) : Doc := { blocks := d.items.map fun it => iembedBlock (it.sep == 0) it.block }
+
+/-- the documents whose source the spec model spells byte for byte: nothing in front, nothing behind, at most one blank
+    line between two blocks and exactly one in front of and behind every indented code block (the spec model has no
+    `abut` choice for `Block.icode`) -/
+def inoExtraBlanksFrom : Option IBlock → List IItem → Bool
+  | _, [] => true
+  | none, it :: rest => it.sep == 0 && inoExtraBlanksFrom (some it.block) rest
+  | some a, it :: rest =>
+    it.sep ≤ 1 && (!(a.isIc || it.block.isIc) || it.sep == 1) && inoExtraBlanksFrom (some it.block) rest
+
+def inoExtraBlanks (d : IDoc) : Bool := d.trail == 0 && inoExtraBlanksFrom none d.items
+
+/-- stage 12 without the final line feed (2.1: a line ends with a line ending or with the end of the file): the document
+    must end with a block; the prescribed HTML is unchanged -/
+def ifragEB (d : IDoc) : Bool := ifragB d && d.trail == 0 && !d.items.isEmpty
+
+def IFragE (d : IDoc) : Prop := ifragEB d = true
+
+instance (d : IDoc) : Decidable (IFragE d) := by unfold IFragE; infer_instance
+
+def spellIcE (d : IDoc) : Bytes := (spellIc d).dropLast
+
+def iembedE (d : IDoc) : Doc := { iembed d with finalNewline := false }
+
+/-- a stage-6 document as a stage-12 document -/
+def KDoc.toI (d : KDoc) : IDoc := { items := d.items.map fun it => { sep := it.sep, block := .h it.block }, trail := d.trail }
+
+
+/-! ## stage 19: raw inline HTML tags inside the text lines (documents of paragraphs only)
+
+  The lines of stage 16 with RAW HTML TAGS (6.6) in place of the links: an open tag `<name>` or a closing tag `</name>`,
+  the tag name an ASCII letter followed by ASCII letters and digits (6.6: "a tag name consists of an ASCII letter
+  followed by zero or more ASCII letters, digits, or hyphens"), no attributes, no white space, no `/` before `>`. Text
+  and tags alternate, the line begins and ends with text (first character a literal letter, last one a literal letter
+  or digit): a tag never begins a line, so no HTML block (4.6) starts, whatever the tag name is (`div`, `pre`, `script`
+  included: start conditions 1, 6, 7 look at the beginning of a line). A `<` is never written literally inside text
+  (`mustEscape`), so the only `<` of a line are those of its tags; `<name>` contains no `:` and no `@`, so it is no
+  autolink (6.5). Prescribed HTML: the bytes of the tag, unchanged (6.6: "rendered as HTML without escaping"). -/
+
+inductive H19AtomS where
+  | txt (cs : List TChar)     -- text, every character in any licensed spelling
+  | open (name : Bytes)       -- an open tag `<name>`
+  | close (name : Bytes)      -- a closing tag `</name>`
+deriving Repr, Inhabited
+
+abbrev H19Line := List H19AtomS
+
+/-- a paragraph with the number of EXTRA blank lines in front of it (as `FItem`) -/
+structure H19Item where
+  gap : Nat := 0
+  lines : List H19Line
+deriving Repr, Inhabited
+
+structure H19Doc where
+  items : List H19Item
+  trail : Nat := 0
+deriving Repr, Inhabited
+
+def H19AtomS.isTxt : H19AtomS → Bool
+  | .txt _ => true
+  | _ => false
+
+/-- a tag name: an ASCII letter followed by ASCII letters and digits -/
+def tagNameOK19 (n : Bytes) : Bool :=
+  match n with
+  | c :: rest => isLetter c && rest.all isAlnumC
+  | [] => false
+
+def h19atomOKS : H19AtomS → Bool
+  | .txt cs => !cs.isEmpty && cs.all charOK
+  | .open n => tagNameOK19 n
+  | .close n => tagNameOK19 n
+
+/-- text atoms and tags alternate -/
+def h19alternatingS : List H19AtomS → Bool
+  | a :: b :: rest => (a.isTxt != b.isTxt) && h19alternatingS (b :: rest)
+  | _ => true
+
+/-- the first atom is text that begins with a literal letter -/
+def h19firstOKS (l : H19Line) : Bool :=
+  match l with
+  | .txt (t :: _) :: _ => firstOK t
+  | _ => false
+
+/-- the last atom is text that ends with a literal letter or digit -/
+def h19lastOKS (l : H19Line) : Bool :=
+  match l.getLast? with
+  | some (.txt cs) => (match cs.getLast? with | some z => lastOK z | none => false)
+  | _ => false
+
+def h19lineOKS (l : H19Line) : Bool := h19alternatingS l && h19firstOKS l && h19lastOKS l && l.all h19atomOKS
+
+def h19itemOKS (it : H19Item) : Bool := !it.lines.isEmpty && it.lines.all h19lineOKS
+
+def h19fragB (d : H19Doc) : Bool := d.items.all h19itemOKS
+
+def H19Frag (d : H19Doc) : Prop := h19fragB d = true
+
+instance (d : H19Doc) : Decidable (H19Frag d) := by unfold H19Frag; infer_instance
+
+/-- the bytes of a tag -/
+def tagBytes19 : H19AtomS → Bytes
+  | .txt _ => []
+  | .open n => [60] ++ n ++ [62]
+  | .close n => [60, 47] ++ n ++ [62]
+
+def spellH19Atom : H19AtomS → Bytes
+  | .txt cs => escSpell cs
+  | a => tagBytes19 a
+
+/-- the source bytes of one line, without its line ending -/
+def spellH19Line (l : H19Line) : Bytes := l.flatMap spellH19Atom
+
+def spellH19Items (first : Bool) : List H19Item → Bytes
+  | [] => []
+  | it :: rest =>
+    blanks (if first then it.gap else it.gap + 1) ++ it.lines.flatMap (fun l => spellH19Line l ++ [10]) ++
+      spellH19Items false rest
+
+/-- the Markdown source of a stage-19 document -/
+def spellH19 (d : H19Doc) : Bytes := spellH19Items true d.items ++ blanks d.trail
+
+def expH19Atom : H19AtomS → Bytes
+  | .txt cs => escHtml (plain cs)
+  | a => tagBytes19 a
+
+def expH19Line (l : H19Line) : Bytes := l.flatMap expH19Atom
+
+def expH19Item (it : H19Item) : Bytes := strBytes "<p>" ++ joinNl (it.lines.map expH19Line) ++ strBytes "</p>\n"
+
+/-- the HTML the specification prescribes for a stage-19 document -/
+def expectedH19 (d : H19Doc) : Bytes := d.items.flatMap expH19Item
+
+/-- raw inline HTML of GM.Spec.CommonMark: the bytes of the tag -/
+def h19embedAtom : H19AtomS → Inline
+  | .txt cs => .text cs
+  | a => .rawHtml (tagBytes19 a)
+
+/-- the atoms of the lines with soft breaks between the lines -/
+def h19embedLines : List H19Line → List Inline
+  | [] => []
+  | [l] => l.map h19embedAtom
+  | l :: rest => l.map h19embedAtom ++ .softBreak :: h19embedLines rest
+
+def h19embed (d : H19Doc) : Doc := { blocks := d.items.map fun it => .para {} (h19embedLines it.lines) 0 }
+
+def h19noExtraBlanks (d : H19Doc) : Bool := d.trail == 0 && d.items.all fun it => it.gap == 0
+
+/-! ## stage 20: underscore emphasis between the runs of text (documents of paragraphs only)
+
+  Lines of text atoms alternating with emphasis `_c_` and strong emphasis `__c__` (6.2), always written with `_`; the
+  content `c` is a non-empty run of ASCII letters and digits. A `_` run that is followed by a letter or digit is
+  left-flanking; it can open emphasis only if it is not also right-flanking, i.e. only if the SOURCE character in
+  front of it is white space or punctuation (6.2 rules 2, 6). Likewise the closing run can close only if the source
+  character behind it is white space or punctuation (rules 4, 8). So: the last source byte of the text in front of an
+  emphasis atom and the first source byte of the text behind it must not be a letter or digit (`unbeforeOK`,
+  `unafterOK` — the byte, not the character: `&#65;_x_` has `;` in front of the run, and a letter or digit has a
+  letter or digit as source byte exactly when it is written literally). Otherwise the line conditions of stage 11.
+  Prescribed HTML: `<em>` + content + `</em>`, `<strong>` + content + `</strong>`. -/
+
+inductive UnAtomS where
+  | txt (cs : List TChar)       -- text, every character in any licensed spelling
+  | em (content : Bytes)        -- `_content_`
+  | strong (content : Bytes)    -- `__content__`
+deriving Repr, Inhabited
+
+abbrev UnLine := List UnAtomS
+
+/-- a paragraph with the number of EXTRA blank lines in front of it (as `FItem`) -/
+structure UnItem where
+  gap : Nat := 0
+  lines : List UnLine
+deriving Repr, Inhabited
+
+structure UnDoc where
+  items : List UnItem
+  trail : Nat := 0
+deriving Repr, Inhabited
+
+def UnAtomS.isTxt : UnAtomS → Bool
+  | .txt _ => true
+  | _ => false
+
+def unatomOKS : UnAtomS → Bool
+  | .txt cs => !cs.isEmpty && cs.all charOK
+  | .em content => !content.isEmpty && content.all isAlnumC
+  | .strong content => !content.isEmpty && content.all isAlnumC
+
+/-- text atoms and emphasis atoms alternate -/
+def unalternatingS : List UnAtomS → Bool
+  | a :: b :: rest => (a.isTxt != b.isTxt) && unalternatingS (b :: rest)
+  | _ => true
+
+/-- the character in front of an opening `_` run: its last source byte is white space or punctuation -/
+def unbeforeOK (t : TChar) : Bool := !isAlnumC (srcLast t)
+
+/-- the character behind a closing `_` run: its first source byte is white space or punctuation -/
+def unafterOK (t : TChar) : Bool := !isAlnumC (srcFirst t)
+
+/-- two neighbouring atoms: text in front of an emphasis atom ends, text behind an emphasis atom begins with such a
+    character -/
+def unpairOK : UnAtomS → UnAtomS → Bool
+  | .txt cs, .em _ => (match cs.getLast? with | some t => unbeforeOK t | none => false)
+  | .txt cs, .strong _ => (match cs.getLast? with | some t => unbeforeOK t | none => false)
+  | .em _, .txt cs => (match cs.head? with | some t => unafterOK t | none => false)
+  | .strong _, .txt cs => (match cs.head? with | some t => unafterOK t | none => false)
+  | _, _ => true
+
+def unneighOK : List UnAtomS → Bool
+  | a :: b :: rest => unpairOK a b && unneighOK (b :: rest)
+  | _ => true
+
+/-- the first atom is text that begins with a literal letter -/
+def unfirstOKS (l : UnLine) : Bool :=
+  match l with
+  | .txt (t :: _) :: _ => firstOK t
+  | _ => false
+
+/-- the last atom is text that ends with a literal letter or digit -/
+def unlastOKS (l : UnLine) : Bool :=
+  match l.getLast? with
+  | some (.txt cs) => (match cs.getLast? with | some z => lastOK z | none => false)
+  | _ => false
+
+def unlineOKS (l : UnLine) : Bool :=
+  unalternatingS l && unfirstOKS l && unlastOKS l && l.all unatomOKS && unneighOK l
+
+def unitemOKS (it : UnItem) : Bool := !it.lines.isEmpty && it.lines.all unlineOKS
+
+def unfragB (d : UnDoc) : Bool := d.items.all unitemOKS
+
+def UnFrag (d : UnDoc) : Prop := unfragB d = true
+
+instance (d : UnDoc) : Decidable (UnFrag d) := by unfold UnFrag; infer_instance
+
+def spellUnAtom : UnAtomS → Bytes
+  | .txt cs => escSpell cs
+  | .em content => [95] ++ content ++ [95]
+  | .strong content => [95, 95] ++ content ++ [95, 95]
+
+/-- the source bytes of one line, without its line ending -/
+def spellUnLine (l : UnLine) : Bytes := l.flatMap spellUnAtom
+
+def spellUnItems (first : Bool) : List UnItem → Bytes
+  | [] => []
+  | it :: rest =>
+    blanks (if first then it.gap else it.gap + 1) ++ it.lines.flatMap (fun l => spellUnLine l ++ [10]) ++
+      spellUnItems false rest
+
+/-- the Markdown source of a stage-20 document -/
+def spellUn (d : UnDoc) : Bytes := spellUnItems true d.items ++ blanks d.trail
+
+def expUnAtom : UnAtomS → Bytes
+  | .txt cs => escHtml (plain cs)
+  | .em content => strBytes "<em>" ++ escHtml content ++ strBytes "</em>"
+  | .strong content => strBytes "<strong>" ++ escHtml content ++ strBytes "</strong>"
+
+def expUnLine (l : UnLine) : Bytes := l.flatMap expUnAtom
+
+def expUnItem (it : UnItem) : Bytes := strBytes "<p>" ++ joinNl (it.lines.map expUnLine) ++ strBytes "</p>\n"
+
+/-- the HTML the specification prescribes for a stage-20 document -/
+def expectedUn (d : UnDoc) : Bytes := d.items.flatMap expUnItem
+
+/-- the spec-model inline, with the choice "underscore" -/
+def unembedAtom : UnAtomS → Inline
+  | .txt cs => .text cs
+  | .em content => .emph true [.text (elits content)]
+  | .strong content => .strong true [.text (elits content)]
+
+/-- the atoms of the lines with soft breaks between the lines -/
+def unembedLines : List UnLine → List Inline
+  | [] => []
+  | [l] => l.map unembedAtom
+  | l :: rest => l.map unembedAtom ++ .softBreak :: unembedLines rest
+
+def unembed (d : UnDoc) : Doc := { blocks := d.items.map fun it => .para {} (unembedLines it.lines) 0 }
+
+def unnoExtraBlanks (d : UnDoc) : Bool := d.trail == 0 && d.items.all fun it => it.gap == 0
+
 end GM.Spec.CMFrag
